@@ -480,6 +480,9 @@ def run(tier, seed):
 def _run(ck, tier, seed):
     quick = tier == "quick"
     t0 = time.time()
+    # 0. the integer core (LlcpWindow.tla, modulus 16): Apalache works on the inductive invariant in the background
+    from bind import c05win
+    win = c05win.Stage(PID, quick)
     # 1. exhaustive model checking, scaled constants
     r = tlc.run("LlcpDlc.tla", "MC_LlcpDlc.cfg" if quick else "MC_LlcpDlc_thorough.cfg", PID,
                 workers=16, timeout=900 if quick else 3600)
@@ -541,6 +544,7 @@ def _run(ck, tier, seed):
     t3 = time.time()
     from bind import c05conn
     c05conn.stage(ck, quick, seed, tlc, PID)
+    win.finish(ck)
     ck.cover(seconds_mc_and_random_walks=int(t1 - t0), seconds_short_histories=int(t2 - t1), seconds_threaded=int(t3 - t2),
              seconds_conn=int(time.time() - t3))
     ck.sample(dict(trace=traces[0]["id"], const=traces[0]["const"], first_events=traces[0]["ev"][:6]))
@@ -548,7 +552,9 @@ def _run(ck, tier, seed):
     ck.assume("non-threaded binding: application calls use MSG_DONTWAIT and are interleaved with collect()/dispatch() by the harness",
               "threaded binding: blocking send()/recv() in application threads against both run loops under the deterministic scheduler "
               "(preemption at synchronisation points), random schedules; the two MACs are joined by an in-memory pipe",
-              "exhaustive run uses modulus 4 / windows 1..2; the modulus-16 code is exercised by trace validation only",
+              "exhaustive run of the implementation-shaped model uses modulus 4 / windows 1..2; modulus 16 and windows 0..15 are covered "
+              "by LlcpWindow.tla (counters only; inductive invariant by Apalache, complete enumeration by TLC in the thorough tier) and "
+              "its refinement mapping WinInd, which trace validation evaluates on the real modulus-16 code",
               "one data link connection per controller pair; frames are carried by a FIFO between collect() and dispatch()")
     return ck.finish()
 
